@@ -4,6 +4,8 @@ pub mod c01;
 pub mod c02;
 pub mod c03;
 pub mod c04;
+pub mod c05;
+pub mod c06;
 pub mod c14;
 pub mod c15;
 pub mod c17;
@@ -17,6 +19,8 @@ pub fn lookup(id: &str) -> Option<PropFn> {
         "C02" => c02::run,
         "C03" => c03::run,
         "C04" => c04::run,
+        "C05" => c05::run,
+        "C06" => c06::run,
         "C14" => c14::run,
         "C15" => c15::run,
         "C17" => c17::run,
